@@ -20,14 +20,30 @@ type c07File struct {
 	fails bool
 }
 
+// how the front-matter block is written: the same block with LF or CRLF line ends, or with blanks after the closing fence
+var c07FenceStyle int
+
 func (f c07File) Source() string {
 	var sb strings.Builder
 	if len(f.fm) > 0 {
-		sb.WriteString("---\n")
-		for _, kv := range f.fm {
-			fmt.Fprintf(&sb, "%s: %q\n", kv[0], kv[1])
+		h := len(f.name) + len(f.fm)
+		nl, closing := "\n", "---\n"
+		switch (c07FenceStyle + h) % 5 {
+		case 1:
+			nl, closing = "\r\n", "---\r\n"
+		case 2:
+			closing = "--- \n"
+		case 3:
+			closing = "---\t\n"
 		}
-		sb.WriteString("---\n")
+		if c07FenceStyle == 0 {
+			nl, closing = "\n", "---\n"
+		}
+		sb.WriteString("---" + nl)
+		for _, kv := range f.fm {
+			fmt.Fprintf(&sb, "%s: %q%s", kv[0], kv[1], nl)
+		}
+		sb.WriteString(closing)
 	}
 	fmt.Fprintf(&sb, "<div data-f=\"%s\" data-a=\"{{ a }}\" data-b=\"{{ b }}\"></div>", f.name)
 	if f.fails {
@@ -233,6 +249,11 @@ func runC07(r *Run) {
 		r.Count(fmt.Sprintf("order:load-first=%v", c07LoadFirst))
 		c07Ctor = r.Rng.Intn(6) // 0,4,5: NewFS; 1: New(WithFS); 2: built before the layouts existed; 3: built while a default layout existed
 		r.Count(fmt.Sprintf("constructor:%d", c07Ctor))
+		c07FenceStyle = 0
+		if r.Rng.Intn(3) == 0 {
+			c07FenceStyle = 1 + r.Rng.Intn(5)
+		}
+		r.Count(fmt.Sprintf("front-matter-line-ends-varied:%v", c07FenceStyle > 0))
 		c07Prev = 0
 		if r.Rng.Intn(3) == 0 {
 			c07Prev = 1 + r.Rng.Intn(12)
